@@ -26,6 +26,7 @@ import (
 	"strconv"
 	"strings"
 	"sync"
+	"sync/atomic"
 	"time"
 
 	"github.com/vektah/gqlparser/v2"
@@ -33,6 +34,7 @@ import (
 	"github.com/wundergraph/graphql-go-tools/v2/pkg/engine/resolve"
 
 	"verif/harness/internal/fedenv"
+	"verif/harness/internal/minifed"
 )
 
 type Op struct {
@@ -41,6 +43,7 @@ type Op struct {
 	Vars  string `json:"vars"`
 	Name  string `json:"name"`
 	Multi bool   `json:"multi"` // build the gateway with EnableMultiFetch
+	Env   string `json:"env"`   // "" = federationtesting supergraph, "mini" = internal/minifed
 }
 
 type Case struct {
@@ -116,6 +119,16 @@ type Out struct {
 	Fetches    []FetchDesc `json:"fetches,omitempty"`
 	Shape      *Shape      `json:"shape,omitempty"`
 	ShapeErr   string      `json:"shape_err,omitempty"`
+	// the same operation executed a second time, fault-free, on the SAME gateway (run mode only)
+	Repeat *Repeat `json:"repeat,omitempty"`
+}
+
+type Repeat struct {
+	Arrived   bool   `json:"arrived"`
+	ElapsedMS int64  `json:"elapsed_ms"`
+	Err       string `json:"err"`
+	Response  string `json:"response"`
+	Exchanges []Xchg `json:"exchanges"`
 }
 
 func goid() int64 {
@@ -308,11 +321,56 @@ func shapeOf(schema *gast.Schema, op Op) (*Shape, error) {
 	return s, nil
 }
 
+// nullLastField sets the last member of a JSON object other than __typename to null (member order kept).
+func nullLastField(obj json.RawMessage) (json.RawMessage, string, bool) {
+	dec := json.NewDecoder(bytes.NewReader(obj))
+	if tok, err := dec.Token(); err != nil || tok != json.Delim('{') {
+		return nil, "", false
+	}
+	var keys []string
+	var vals []json.RawMessage
+	for dec.More() {
+		kt, err := dec.Token()
+		if err != nil {
+			return nil, "", false
+		}
+		var v json.RawMessage
+		if dec.Decode(&v) != nil {
+			return nil, "", false
+		}
+		keys = append(keys, kt.(string))
+		vals = append(vals, v)
+	}
+	idx := -1
+	for i, k := range keys {
+		if k != "__typename" {
+			idx = i
+		}
+	}
+	if idx < 0 {
+		return nil, "", false
+	}
+	vals[idx] = json.RawMessage("null")
+	var buf bytes.Buffer
+	buf.WriteByte('{')
+	for i := range keys {
+		if i > 0 {
+			buf.WriteByte(',')
+		}
+		kb, _ := json.Marshal(keys[i])
+		buf.Write(kb)
+		buf.WriteByte(':')
+		buf.Write(vals[i])
+	}
+	buf.WriteByte('}')
+	return buf.Bytes(), keys[idx], true
+}
+
 // alias of the _entities fields of a MultiEntityFetch request
 var multiAliasRe = regexp.MustCompile(`^f[0-9]+$`)
 
-// partialData turns a genuine subgraph answer into a partial one: the last element of every _entities array (plain
-// or aliased) resp. the last root field of data becomes null and an errors entry with its path is added.
+// partialData turns a genuine subgraph answer into a partial one: the last field of the last element of every _entities
+// array (plain or aliased) resp. the last root field of data becomes null and an errors entry with its path is added.
 func partialData(status int, body []byte) (int, []byte) {
 	var doc map[string]json.RawMessage
 	if json.Unmarshal(body, &doc) != nil {
@@ -349,9 +407,16 @@ func partialData(status int, body []byte) (int, []byte) {
 		var arr []json.RawMessage
 		if (members[i].k == "_entities" || multiAliasRe.MatchString(members[i].k)) && json.Unmarshal(members[i].v, &arr) == nil && len(arr) > 0 && bytes.HasPrefix(bytes.TrimSpace(members[i].v), []byte("[")) {
 			entity = true
-			arr[len(arr)-1] = json.RawMessage("null")
+			last := len(arr) - 1
+			if ent, field, ok := nullLastField(arr[last]); ok {
+				// field-level hole: the last field of the last entity could not be resolved
+				arr[last] = ent
+				errs = append(errs, fmt.Sprintf(`{"message":"faults: injected partial failure","path":[%q,%d,%q]}`, members[i].k, last, field))
+			} else {
+				arr[last] = json.RawMessage("null")
+				errs = append(errs, fmt.Sprintf(`{"message":"faults: injected partial failure","path":[%q,%d]}`, members[i].k, last))
+			}
 			members[i].v, _ = json.Marshal(arr)
-			errs = append(errs, fmt.Sprintf(`{"message":"faults: injected partial failure","path":[%q,%d]}`, members[i].k, len(arr)-1))
 		}
 	}
 	if !entity {
@@ -376,7 +441,7 @@ func partialData(status int, body []byte) (int, []byte) {
 
 // ---- one execution
 
-func execute(op Op, c *Case, withPlan bool, schema *gast.Schema) Out {
+func execute(op Op, c *Case, withPlan bool) Out {
 	out := Out{Op: op.ID}
 	if c != nil {
 		out.ID = c.ID
@@ -415,50 +480,57 @@ func execute(op Op, c *Case, withPlan bool, schema *gast.Schema) Out {
 	}
 	var xmu sync.Mutex
 	xfetch := map[int]int{} // exchange seq -> fetch id
-	env, err := fedenv.New(fedenv.Options{
-		EnableMultiFetch: op.Multi,
-		Interceptor: func(x *fedenv.Exchange) fedenv.Action {
-			rec.mu.Lock()
-			fid, ok := rec.byGoid[goid()]
-			if !ok {
-				fid = -1
-			}
-			// completion order: wait until every fetch that precedes this one in `order` is finished
-			if p, has := pos[fid]; has {
-				deadline := time.Now().Add(3 * time.Second)
-				for !rec.free {
-					waiting := false
-					for _, g := range order[:p] {
-						if !rec.finished[g] {
-							waiting = true
-							break
-						}
-					}
-					if !waiting {
+	var phase2 atomic.Bool
+	opts := fedenv.Options{}
+	if op.Env == "mini" {
+		opts = minifed.Options()
+	}
+	opts.EnableMultiFetch = op.Multi
+	opts.Interceptor = func(x *fedenv.Exchange) fedenv.Action {
+		if phase2.Load() {
+			return fedenv.Action{}
+		}
+		rec.mu.Lock()
+		fid, ok := rec.byGoid[goid()]
+		if !ok {
+			fid = -1
+		}
+		// completion order: wait until every fetch that precedes this one in `order` is finished
+		if p, has := pos[fid]; has {
+			deadline := time.Now().Add(3 * time.Second)
+			for !rec.free {
+				waiting := false
+				for _, g := range order[:p] {
+					if !rec.finished[g] {
+						waiting = true
 						break
 					}
-					if !time.Now().Before(deadline) {
-						out.Unrealised = true
-						break
-					}
-					t := time.AfterFunc(time.Until(deadline)+time.Millisecond, func() {
-						rec.mu.Lock()
-						rec.cond.Broadcast()
-						rec.mu.Unlock()
-					})
-					rec.cond.Wait()
-					t.Stop()
 				}
+				if !waiting {
+					break
+				}
+				if !time.Now().Before(deadline) {
+					out.Unrealised = true
+					break
+				}
+				t := time.AfterFunc(time.Until(deadline)+time.Millisecond, func() {
+					rec.mu.Lock()
+					rec.cond.Broadcast()
+					rec.mu.Unlock()
+				})
+				rec.cond.Wait()
+				t.Stop()
 			}
-			rec.seq++
-			rec.events = append(rec.events, Event{Seq: rec.seq, P: "req", A: int64(fid), B: int64(x.Seq)})
-			rec.mu.Unlock()
-			xmu.Lock()
-			xfetch[x.Seq] = fid
-			xmu.Unlock()
-			return fedenv.Action{Fault: faults[fid], Rewrite: rewrites[fid]}
-		},
-	})
+		}
+		rec.seq++
+		rec.events = append(rec.events, Event{Seq: rec.seq, P: "req", A: int64(fid), B: int64(x.Seq)})
+		rec.mu.Unlock()
+		xmu.Lock()
+		xfetch[x.Seq] = fid
+		xmu.Unlock()
+		return fedenv.Action{Fault: faults[fid], Rewrite: rewrites[fid]}
+	}
+	env, err := fedenv.New(opts)
 	if err != nil {
 		out.Err = "fedenv: " + err.Error()
 		return out
@@ -515,13 +587,66 @@ func execute(op Op, c *Case, withPlan bool, schema *gast.Schema) Out {
 	rec.mu.Lock()
 	out.Events = append([]Event(nil), rec.events...)
 	rec.mu.Unlock()
-	for _, x := range env.Exchanges() {
+	out.Exchanges = exportExchanges(env.Exchanges(), func(seq int) int {
 		xmu.Lock()
-		fid, ok := xfetch[x.Seq]
-		xmu.Unlock()
-		if !ok {
-			fid = -1
+		defer xmu.Unlock()
+		if fid, ok := xfetch[seq]; ok {
+			return fid
 		}
+		return -1
+	})
+	if withPlan {
+		var fetches []FetchDesc
+		out.Tree = exportTree(env, env.LastFetchTree(), &fetches)
+		out.Fetches = fetches
+		sh, err := shapeOf(schemaFor(op.Env), op)
+		if err != nil {
+			out.ShapeErr = err.Error()
+		}
+		out.Shape = sh
+	}
+	if c != nil && out.Arrived && out.Panic == "" {
+		// fault, then repeat: the same operation once more on the same gateway, nothing fails this time
+		phase2.Store(true)
+		env.Reset()
+		rctx, rcancel := context.WithTimeout(context.Background(), 10*time.Second)
+		t1 := time.Now()
+		rdone := make(chan res, 1)
+		go func() {
+			var r res
+			defer func() {
+				if p := recover(); p != nil {
+					r.pan = fmt.Sprint(p)
+				}
+				rdone <- r
+			}()
+			r.body, r.err = env.Execute(rctx, op.Query, op.Vars, op.Name)
+		}()
+		rp := &Repeat{}
+		select {
+		case r2 := <-rdone:
+			rp.Arrived = rctx.Err() == nil
+			rp.Response = string(r2.body)
+			if r2.err != nil {
+				rp.Err = r2.err.Error()
+			}
+			if r2.pan != "" {
+				rp.Err = "panic: " + r2.pan
+			}
+		case <-time.After(15 * time.Second):
+		}
+		rcancel()
+		rp.ElapsedMS = time.Since(t1).Milliseconds()
+		rp.Exchanges = exportExchanges(env.Exchanges(), func(int) int { return -1 })
+		out.Repeat = rp
+	}
+	return out
+}
+
+func exportExchanges(xs []*fedenv.Exchange, fetchOf func(seq int) int) []Xchg {
+	var outx []Xchg
+	for _, x := range xs {
+		fid := fetchOf(x.Seq)
 		xo := Xchg{Seq: x.Seq, Fetch: fid, Subgraph: x.Subgraph, Query: x.Query, Variables: string(x.Variables), Fault: x.Fault, Applied: x.FaultApplied,
 			Status: x.Status, Response: x.ResponseText, Err: x.Err, Cancelled: x.Cancelled, Reps: []string{}}
 		var vars map[string]json.RawMessage
@@ -553,19 +678,40 @@ func execute(op Op, c *Case, withPlan bool, schema *gast.Schema) Out {
 				}
 			}
 		}
-		out.Exchanges = append(out.Exchanges, xo)
+		outx = append(outx, xo)
 	}
-	if withPlan {
-		var fetches []FetchDesc
-		out.Tree = exportTree(env, env.LastFetchTree(), &fetches)
-		out.Fetches = fetches
-		sh, err := shapeOf(schema, op)
-		if err != nil {
-			out.ShapeErr = err.Error()
-		}
-		out.Shape = sh
+	return outx
+}
+
+var (
+	schemaMu sync.Mutex
+	schemas  = map[string]*gast.Schema{}
+)
+
+// schemaFor parses the supergraph SDL of the environment with gqlparser (independent of the code under test).
+func schemaFor(envName string) *gast.Schema {
+	schemaMu.Lock()
+	defer schemaMu.Unlock()
+	if s, ok := schemas[envName]; ok {
+		return s
 	}
-	return out
+	o := fedenv.Options{}
+	if envName == "mini" {
+		o = minifed.Options()
+	}
+	probe, err := fedenv.New(o)
+	if err != nil {
+		fmt.Fprintln(os.Stderr, "faults: ", err)
+		os.Exit(2)
+	}
+	defer probe.Close()
+	s, err := gqlparser.LoadSchema(&gast.Source{Name: "supergraph", Input: probe.SupergraphSDL()})
+	if err != nil {
+		fmt.Fprintln(os.Stderr, "faults: supergraph SDL:", err)
+		os.Exit(2)
+	}
+	schemas[envName] = s
+	return s
 }
 
 func main() {
@@ -597,16 +743,8 @@ func main() {
 	}
 	switch *mode {
 	case "plan":
-		ops := readOps(*in)
-		probe, err := fedenv.New(fedenv.Options{})
-		die(err)
-		schema, err := gqlparser.LoadSchema(&gast.Source{Name: "supergraph", Input: probe.SupergraphSDL()})
-		probe.Close()
-		if err != nil {
-			die(fmt.Errorf("supergraph SDL: %v", err))
-		}
-		for _, op := range ops {
-			die(enc.Encode(execute(op, nil, true, schema)))
+		for _, op := range readOps(*in) {
+			die(enc.Encode(execute(op, nil, true)))
 		}
 	case "run":
 		ops := map[string]Op{}
@@ -629,9 +767,9 @@ func main() {
 			if !ok {
 				die(fmt.Errorf("unknown op %q", c.Op))
 			}
-			o := execute(op, &c, false, nil)
+			o := execute(op, &c, false)
 			die(enc.Encode(o))
-			if !o.Arrived {
+			if !o.Arrived || (o.Repeat != nil && !o.Repeat.Arrived) {
 				// a participant is still running: its hook events would pollute the next case; stop here,
 				// the check restarts the driver on the remaining cases
 				w.Flush()
